@@ -230,12 +230,28 @@ def opSpecSpace : J.Op := fun j => do
   let upper ← J.field j "upper" (J.list J.nat)
   pure <| J.ofBool (SelProt.specSpace subset nopt ⟨ndecn, space, lower, upper⟩)
 
+/-- usefulness criterion, the exact part: expected parental genome contributions of the cross type and the
+    progeny mean of every row of the cross map (the `spread` summand stays with the harness: a square root) -/
+def opUcPmean : J.Op := fun j => do
+  let ct ← J.field j "cross_type" J.str
+  let bv ← J.field j "bv" (J.list J.rat)
+  let xmap ← J.field j "xmap" (J.mat J.nat)
+  match SelProt.CrossType.ofString ct with
+  | none => J.fail s!"unknown cross type {ct}"
+  | some c =>
+    let epgc : List Rat := c.epgc
+    if !xmap.all (fun r => r.length == c.nparent && r.all (fun i => decide (i < bv.length))) then
+      J.fail "cross map row of the wrong length / out of range"
+    pure <| J.obj [("epgc", J.ofList J.ofRat epgc),
+                   ("pmean", J.ofList J.ofRat (xmap.map (SelProt.progenyMean epgc bv))),
+                   ("midparent", J.ofList J.ofRat (xmap.map (SelProt.midParent bv)))]
+
 def ops : List (String × J.Op) :=
   [("c07.sample", opSample), ("c07.sample_repaired", opSampleRepaired), ("c07.spec", opSpec), ("c07.xmapix", opXmapix),
    ("c07.sorting", opSorting), ("c07.sorting_with", opSortingWith), ("c07.spec_topk", opSpecTopK),
    ("c07.mo_choice", opMoChoice), ("c07.spec_argmax", opSpecArgmax), ("c07.ndset_dist", opNdsetDist),
    ("c07.uc_bounds", opUcBounds), ("c07.family_bounds", opFamilyBounds),
    ("c07.embv_bounds", opEmbvBounds), ("c07.spec_cover", opSpecCover),
-   ("c07.space", opSpace), ("c07.spec_space", opSpecSpace)]
+   ("c07.space", opSpace), ("c07.spec_space", opSpecSpace), ("c07.uc_pmean", opUcPmean)]
 
 end Drv.C07
